@@ -54,8 +54,8 @@ def step (_ : Unit) : List String → Unit × List String
   | ["idxc", n, t, cs] =>
     let l := if cs = "-" then [] else (cs.splitOn ",").map nat
     ((), [showIdx (Shards.assignWith (Shards.choiceFn ((int n).toNat - 1) l) (int n) (int t))])
-  | ["zkprove", m, y] => ((), [if decide (Zk.relBytes (fun _ => nat m) 0 (ofHex y)) then "ok" else "err"])
-  | ["zkverify", m, y] => ((), [if decide (Zk.relBytes (fun _ => nat m) 0 (ofHex y)) then "ok" else "err"])
+  | "zkprove" :: m :: y :: _ => ((), [if decide (Zk.relBytes (fun _ => nat m) 0 (ofHex y)) then "ok" else "err"])
+  | "zkverify" :: m :: y :: _ => ((), [if decide (Zk.relBytes (fun _ => nat m) 0 (ofHex y)) then "ok" else "err"])
   | _ => ((), ["bad-op"])
 
 def run := runSuite () step
